@@ -380,7 +380,10 @@ func (u *uploader) UploadPart(bucket, object string, id UploadID, partNumber int
 		return "", ErrInvalidPart
 	}
 	body, err := io.ReadAll(input)
-	if err != nil {
+	if err == io.ErrUnexpectedEOF {
+		// a streaming (aws-chunked) body that ends before its final chunk
+		return "", ErrIncompleteBody
+	} else if err != nil {
 		return "", err
 	}
 	if len(body) != int(contentLength) {
